@@ -442,6 +442,7 @@ type c01World struct {
 	sawReserveParked, sawReserveMisrouted, sawUnreserveMisrouted                                    bool
 	sawWindowMoved, sawWindowDeleted, sawWindowChanged, sawWindowMigrated                           bool
 	sawParkedMoveReserved                                                                           bool
+	sawReserveAssigned, sawReserveAssignedMisrouted                                                 bool
 	sawCrossTreeWindow, sawTreePod, sawCrossTreeMigrate, sawCrossTreeRelabel                        bool
 	sawCrossTreeReservedMigrate                                                                     bool
 	excludedMoves                                                                                   int
@@ -1432,6 +1433,15 @@ func (w *c01World) reserveCandidates() []string {
 		if p.In != "" && (w.flags.Parked || !w.misrouted(p)) && !p.Assigned {
 			out = append(out, pn)
 		}
+		// A late scheduling attempt: the cycle was started for a pod whose earlier bind looked failed to the scheduler but
+		// went through, and the informer delivers the bound pod (assigned by that update) before the cycle reaches Reserve.
+		// Only in the parked-reserve units (not in the migrate-race units, whose draw sequence is pinned by replay files).
+		if w.flags.Parked && !w.flags.Interleave && p.In != "" && p.Assigned && p.Spec.Node != "" {
+			out = append(out, pn)
+			if w.misrouted(p) {
+				out = append(out, pn, pn, pn)
+			}
+		}
 	}
 	return out
 }
@@ -1445,6 +1455,12 @@ func (w *c01World) reserve(name string) {
 	mis := w.misrouted(p)
 	if w.inFallback(p) && !mis {
 		w.sawReserveParked = true
+	}
+	if p.Assigned { // reserving a pod that already counts as used changes nothing: it stays counted once
+		w.sawReserveAssigned = true
+		if mis {
+			w.sawReserveAssignedMisrouted = true
+		}
 	}
 	p.Assigned = true
 	w.begin("reserve")
@@ -1864,6 +1880,8 @@ func c01RunHistoryMode(t *rapid.T, rec *vk.Rec, mk func(scaleMin bool, sysMax, d
 	c.ClassIf(w.sawReserveMisrouted, "reserve-while-parked-after-own-quota-appeared")
 	c.ClassIf(w.sawUnreserveMisrouted, "unreserve-while-parked-after-own-quota-appeared")
 	c.ClassIf(w.sawParkedMoveReserved, "pod-update-moves-reserved-parked-pod-to-own-quota")
+	c.ClassIf(w.sawReserveAssigned, "late-reserve-of-pod-already-bound-and-assigned")
+	c.ClassIf(w.sawReserveAssignedMisrouted, "late-reserve-of-bound-pod-parked-after-own-quota-appeared")
 	if mode.multiTree {
 		trees := map[string]bool{}
 		for _, n := range w.userQuotas() {
@@ -1892,7 +1910,7 @@ func c01RunHistoryMode(t *rapid.T, rec *vk.Rec, mk func(scaleMin bool, sysMax, d
 	c.ClassIf(len(w.hist) >= 20, "history>=20")
 	nt := w.sawReparentLoad || w.sawDeleteLoad || w.sawOverMax
 	if parked { // a reservation taken or rolled back while the pod is parked in the default quota
-		nt = w.sawReserveParked || w.sawReserveMisrouted || w.sawUnreserveMisrouted
+		nt = w.sawReserveParked || w.sawReserveMisrouted || w.sawUnreserveMisrouted || w.sawReserveAssignedMisrouted
 	}
 	if interleave { // a migrate step for a pod that was moved, deleted or updated since the snapshot
 		nt = w.sawWindowMoved || w.sawWindowDeleted || w.sawWindowChanged
